@@ -95,4 +95,6 @@ Definition propfail_c14 (c : c14_case) : bool :=
   | r0 :: rest => existsb (fun r => negb (list_eqb bad_eqb r0 r)) rest
   end.
 Definition run_c14 (cs : list c14_case) : list N * list N :=
-  (find_idx propfail_c14 cs, find_idx (fun c => mismatch_text (c14_pc c)) cs).
+  (find_idx propfail_c14 cs, find_idx (fun c => mismatch_reasons (c14_pc c)) cs).
+(* C14 is about the implementation agreeing with ITSELF, text included (propfail_c14); against the model only the
+   allow bit and the reason are compared here - the detail texts are C13's subject *)
